@@ -170,12 +170,43 @@ def run_e2e(rec):
         shutil.rmtree(root, ignore_errors=True)
 
 
+def leak_family():
+    """the assignment in which NO layer sets anything: the test case under test runs with the format defaults although the test
+    case before it sets a key inline (one document per key; the second test case's command is sensitive to that key)"""
+    docs = {
+        "keep_crlf": ("{keep_crlf: true}", "printf 'a\\r\\n'", ["a\\r (escaped)"], "printf 'a\\r\\n'", ["a"]),
+        "strip_ansi_escaping": ("{strip_ansi_escaping: true}", "printf 'a\\033[1mb\\n'", ["ab"], "printf 'a\\033[1mb\\n'", ["a\\x1b[1mb (escaped)"]),
+        "output_stream": ("{output_stream: combined}", "printf 'o\\n'; printf 'e\\n' >&2", ["o", "e"], "printf 'o\\n'; printf 'e\\n' >&2", ["o"]),
+        "environment": ('{environment: {X: "X-n-val"}}', "printf 'X=%s\\n' \"$X\"", ["X=X-n-val"], "printf 'Z=%s\\n' \"$Z\"", ["Z="]),
+        # (the second test case exits with the DEFAULT skip code and its expectation does not match: only a skip lets the run succeed)
+        "skip_document_code": ("{skip_document_code: 7}", "true", [], "exit 80", ["NOT-THE-OUTPUT"]),
+    }
+    bad = []
+    for key, (inline, cmd1, exp1, cmd2, exp2) in docs.items():
+        root = tempfile.mkdtemp(prefix="scrut-verif-cfglk-", dir=os.environ.get("VERIF_SCRATCH", "/tmp"))
+        try:
+            lines = ["# first", "", "```scrut " + inline, "$ " + cmd1] + exp1 + ["```", "", "# second", "", "```scrut", "$ " + cmd2] + exp2 + ["```", ""]
+            os.makedirs(os.path.join(root, "docs"))
+            path = os.path.join(root, "docs", "doc.md")
+            with open(path, "w") as f:
+                f.write("\n".join(lines))
+            code, out, err, wall, pid = scenario.run_scrut([path], root)
+            scenario.kill_group(pid)
+            if code != 0:
+                bad.append(f"{key} set inline by the test case before: exit {code}, expected 0")
+        finally:
+            shutil.rmtree(root, ignore_errors=True)
+    return "ok" if not bad else "fail(" + "; ".join(bad) + ")"
+
+
 def run_e2e_nb(rec):
     """NeighbourIndependent (specs/ConfigLayers.tla): the environment in effect for a test case is a function of ITS layers.
     The test case under test is the SECOND of its document; the first one either has no inline configuration (it runs with
     the document defaults) or configures every variable that is in effect for the second one with another value. Only the
     second test case is judged (the first one's output is matched by a glob)."""
     cli, tc, doc, fmt = rec["cli"], rec["tc"], rec["doc"], rec["fmt"]
+    if all(l["scalar"][k] == "U" for l in (cli, tc, doc, fmt) for k in KEYS) and all(l["env"][e] == "U" for l in (cli, tc, doc, fmt) for e in ("X", "Y")):
+        return leak_family()
     case = e2e_case(rec)
     if case is None or not any(l["env"][e] != "U" for l in (tc, doc) for e in ("X", "Y")) \
             or any(l["scalar"][k] != "U" for l in (cli, tc, doc, fmt) for k in KEYS):
@@ -309,7 +340,9 @@ def run(prop, tier, replay=None):
         if o["e2e"] == "fail":
             bad.append("end-to-end:" + ("environment" if any(r[l]["env"][e] != "U" for l in ("tc", "doc") for e in ("X", "Y")) else
                                         next((k for k in KEYS if any(r[l]["scalar"][k] != "U" for l in ("cli", "tc", "doc"))), "format-default")))
-        if o.get("e2e_nb") == "fail" and str(o.get("e2e_nb_detail", "")).startswith("fail"):
+        if o.get("e2e_nb") == "fail" and str(o.get("e2e_nb_detail", "")).startswith("fail") and "set inline by the test case before" in str(o.get("e2e_nb_detail")):
+            bad.append("end-to-end:inline-configuration-of-the-test-case-before-in-effect")
+        elif o.get("e2e_nb") == "fail" and str(o.get("e2e_nb_detail", "")).startswith("fail"):
             bad.append("end-to-end:environment:not-in-effect-after-a-test-case-that-ran-with-another-value-of-the-variable")
         if o.get("e2e_nb") == "fail" and str(o.get("e2e_od_detail", "")).startswith("fail"):
             bad.append("end-to-end:defaults-of-another-document-of-the-invocation-in-effect")
